@@ -173,8 +173,9 @@ def shrink_case(opts, doc):
     return o2, d2
 
 
-def tie_blocks(c, tier, builds_done=False, max_report=12):
-    """runs the scopes; returns (all_ok, per-scope counts)"""
+def tie_blocks(c, tier, builds_done=False, max_report=12, frac=1.0):
+    """runs the scopes; returns (all_ok, per-scope counts).  frac < 1 keeps that fraction of every scope
+    (used by the property checks that share this tie; the full scopes run in C04 thorough / BLOCKS_TIE)"""
     if not builds_done and not c.phase_builds(("debug",)):
         return False, {}
     rng = c.rng
@@ -208,6 +209,8 @@ def tie_blocks(c, tier, builds_done=False, max_report=12):
     all_ok = True
     counts = {}
     reported = 0
+    if frac < 1.0:
+        scopes = [(name, [x for x in cases if rng.random() < frac] or cases[:1]) for name, cases in scopes]
     for name, cases in scopes:
         lines = [case_line(o, d) for o, d in cases]
         real, model = run_both(lines)
